@@ -815,6 +815,49 @@ def check_clear_counter(prog, c, child_rel, r):
                 incs.append(v)
     if len(incs) != len(child_rel):
         return 'pass counter is incremented %d times for %d releases' % (len(incs), len(child_rel))
+    # the counter of the previous pass is the one at the header of the outer loop; each pass starts counting from 0;
+    # the passes stop exactly when a pass released nothing
+    loops = b.cfg.loops()
+    containing = sorted([h for h, body in loops.items() if all(cr[0].point[0] in body for cr in child_rel)], key=lambda h: len(loops[h]))
+    if len(containing) >= 2:
+        inner_h, outer_h = containing[0], containing[-1]
+        if n.extra['block'] != outer_h:
+            return 'the scan does not start at len - (releases of the previous pass)'
+        inner_phi = [ph for l, ph in b.phis.get(inner_h, {}).items() if l == n.extra['local']]
+        for ph in inner_phi:
+            for a, p in zip(ph.args, ph.extra['preds']):
+                if p not in loops[inner_h] and not strip(a).is_const(0):
+                    return 'the pass counter is not reset to 0 at the start of a pass (it keeps growing: slots are released again and the passes never end)'
+        if not inner_phi:
+            return 'the pass counter is not maintained inside the scan'
+        from rules.gate import edge_truth
+        guard_ok = False
+        for blk in loops[outer_h]:
+            d = b.switch_discr.get(blk)
+            if d is None or blk in loops[inner_h]:
+                continue
+            d = strip(d)
+            if d.kind != 'bin':
+                continue
+            x, y = strip(d.args[1]), strip(d.args[2])
+            stays_when = None
+            if d.args[0] == 'Gt' and x is n and y.is_const(0):
+                stays_when = True
+            elif d.args[0] == 'Lt' and y is n and x.is_const(0):
+                stays_when = True
+            elif d.args[0] == 'Ne' and ((x is n and y.is_const(0)) or (y is n and x.is_const(0))):
+                stays_when = True
+            elif d.args[0] == 'Eq' and ((x is n and y.is_const(0)) or (y is n and x.is_const(0))):
+                stays_when = False
+            if stays_when is None:
+                continue
+            t = b.mir['blocks'][blk]['term']
+            for succ in b.cfg.succ[blk]:
+                tr = edge_truth(t, succ)
+                if tr is not None and tr != stays_when and succ not in loops[outer_h]:
+                    guard_ok = True
+        if not guard_ok:
+            return 'the passes do not stop exactly when a pass released nothing (no exit on counter == 0)'
     for inc in incs:
         blk = inc.point[0]
         if not any(b.cfg.dominates(cr[0].point[0], blk) or b.cfg.dominates(blk, cr[0].point[0]) and cr[0].point[0] == blk for cr in child_rel):
